@@ -12,10 +12,13 @@
   `-runs=N -seed=S -max_len=4096 -artifact_prefix=<workdir>/...`, ppci imported under
   `atheris.instrument_imports(include=["ppci"])`.
 * the child does not let a Failure stop libFuzzer: it stores the input as `fail-<sha1>` next to libFuzzer's own artifacts
-  (crash-/timeout-/oom-, which do end a run; the run is then restarted with the remaining budget) and keeps the
-  smallest input per bucket.  The parent collects all artifact files, re-runs each through `one_input` WITHOUT
-  atheris (confirmation), minimises the confirmed ones by line and byte deletion, keeps one per bucket and returns
-  [(input bytes, message)].
+  (crash-/timeout-/oom-, which do end a run; the run is then restarted with the remaining budget; they are counted in
+  the evidence and never re-run) and keeps the smallest input per bucket.  The parent collects the fail- artifacts,
+  re-runs each through `one_input` WITHOUT atheris (confirmation), minimises the confirmed ones by line and byte
+  deletion, keeps one per bucket and returns [(input bytes, message)].
+* each campaign is spent in `rounds` libFuzzer runs over one corpus directory; between the runs the corpus is distilled
+  to the units the target's `<function>_keep(label)` accepts (coverage guidance alone fills the corpus with rejected
+  inputs - every new error path is new coverage - while the semantic oracles only speak about accepted inputs).
 * `info` (a dict) receives the campaign statistics: executions, corpus growth, coverage, outcome histogram.
 
 A case for the runner is {"fuzz": target_name, "input_hex": ...}; `fuzz.replay_case(case, one_input)` evaluates it.
@@ -203,7 +206,7 @@ def _parse_log(path):
     return res
 
 
-def _one_campaign(target_name, mode, seeds, nruns, seed, root, dictionary, budget_s, unit_timeout_s, out, extra_args=()):
+def _one_campaign(target_name, mode, seeds, nruns, seed, root, dictionary, budget_s, unit_timeout_s, out, extra_args=(), rounds=1):
     """Runs in a thread; only waits for child processes.  Fills out[mode]."""
     d = os.path.join(root, mode)
     corpus, art, warm = os.path.join(d, "corpus"), os.path.join(d, "art"), os.path.join(d, "warm")
@@ -214,7 +217,7 @@ def _one_campaign(target_name, mode, seeds, nruns, seed, root, dictionary, budge
             f.write(s)
     res = {"runs_requested": nruns, "seeds": len(seeds), "corpus_before": _nfiles(corpus), "executions": 0, "restarts": 0, "outcomes": collections.Counter(),
            "libfuzzer_artifacts": [], "notes": []}  # fmt: skip
-    args_common = ["-seed=%d" % (seed & 0x7FFFFFFF or 1), "-max_len=%d" % MAX_LEN, "-artifact_prefix=%s/" % art, "-print_final_stats=1",
+    args_common = ["-max_len=%d" % MAX_LEN, "-artifact_prefix=%s/" % art, "-print_final_stats=1",
                    "-timeout=%d" % unit_timeout_s, "-rss_limit_mb=4096", "-verbosity=1"]  # fmt: skip
     args_common += list(extra_args)
     if not seeds:
@@ -227,21 +230,31 @@ def _one_campaign(target_name, mode, seeds, nruns, seed, root, dictionary, budge
             for tok in dictionary:
                 f.write('"%s"\n' % "".join("\\x%02x" % b for b in bytes(tok)))
         args_common.append("-dict=" + dpath)
-    remaining = nruns
+    # the budget is spent in `rounds` libFuzzer runs over the same corpus directory; before every run but the first the
+    # child distils the corpus (fuzz_child: only units the target's <function>_keep(label) accepts stay).  Coverage
+    # guidance alone fills the corpus with REJECTED inputs (every new error path is new coverage) and the semantic
+    # oracles only speak about accepted ones
+    rounds = max(1, min(rounds, nruns // 200 or 1))
+    pending = [nruns // rounds + (1 if i < nruns % rounds else 0) for i in range(rounds)]
     time_left = float(budget_s)
     attempt = 0
+    res["rounds"] = rounds
+    res["distilled"] = []
     import time
 
-    while remaining > 0 and attempt < 6 and time_left > 5:
+    while pending and attempt < rounds + 6 and time_left > 5:
         attempt += 1
+        remaining = pending[0]
         stats_path = os.path.join(d, "stats-%d.json" % attempt)
         log_path = os.path.join(d, "log-%d.txt" % attempt)
         cmd = [PYTHON, "-m", "vf.fuzz_child", target_name, stats_path, art, warm, corpus, "-runs=%d" % remaining, "-max_total_time=%d" % int(time_left)]
-        cmd += args_common
+        cmd += ["-seed=%d" % ((seed + 7919 * attempt) & 0x7FFFFFFF or 1)] + args_common
+        env = child_env()
+        env["VERIF_FUZZ_DISTILL"] = "1" if attempt > 1 else "0"
         t0 = time.time()
         with open(log_path, "wb") as log:
             try:
-                p = subprocess.run(cmd, env=child_env(), stdout=log, stderr=subprocess.STDOUT, stdin=subprocess.DEVNULL, cwd=core.VERIF, timeout=time_left + 600)
+                p = subprocess.run(cmd, env=env, stdout=log, stderr=subprocess.STDOUT, stdin=subprocess.DEVNULL, cwd=core.VERIF, timeout=time_left + 600)
                 rc = p.returncode
             except subprocess.TimeoutExpired:
                 rc = "killed (wall clock)"
@@ -256,9 +269,13 @@ def _one_campaign(target_name, mode, seeds, nruns, seed, root, dictionary, budge
         done = max(int(st.get("n", 0)), int(lg.get("executions", 0)))
         res["executions"] += done
         res["outcomes"].update(st.get("hist", {}))
-        for k in ("cov", "ft", "corpus_units", "cov_after_seeds"):
+        for k in ("cov", "ft", "corpus_units"):
             if k in lg:
-                res[k] = lg[k]
+                res[k] = max(res.get(k, 0), lg[k]) if k != "corpus_units" else lg[k]
+        if "cov_after_seeds" in lg:
+            res.setdefault("cov_after_seeds", lg["cov_after_seeds"])
+        if st.get("distilled"):
+            res["distilled"].append(st["distilled"])
         if st.get("harness_error"):
             res["harness_error"] = st["harness_error"]
             break
@@ -268,10 +285,13 @@ def _one_campaign(target_name, mode, seeds, nruns, seed, root, dictionary, budge
             res["harness_error"] = "fuzz child produced no statistics (exit %s):\n%s" % (rc, tail)
             break
         if rc == 0:
-            break  # budget used up (runs or time)
+            pending.pop(0)  # this round's budget is used up (runs or time)
+            continue
         # libFuzzer stopped on an artifact of its own (timeout, oom, crash in the target): go on with the rest
         res["restarts"] += 1
-        remaining -= max(done, 1)
+        pending[0] = remaining - max(done, 1)
+        if pending[0] <= 0:
+            pending.pop(0)
     res["stopped_by_time"] = bool(res["executions"] < nruns and time_left <= 5)
     res["corpus_after"] = _nfiles(corpus)
     res["artifacts"] = sorted(os.path.join(art, n) for n in os.listdir(art) if not n.endswith(".json"))
@@ -279,8 +299,8 @@ def _one_campaign(target_name, mode, seeds, nruns, seed, root, dictionary, budge
     out[mode] = res
 
 
-def campaign(target_name, one_input, seeds, runs, seed, workdir, dictionary=None, info=None, budget_s=None, unit_timeout_s=120, min_evals=400,
-             libfuzzer_args=()):
+def campaign(target_name, one_input, seeds, runs, seed, workdir, dictionary=None, info=None, budget_s=None, unit_timeout_s=60, min_evals=400,
+             libfuzzer_args=(), rounds=4):
     """See the module docstring.  Returns [(input bytes, message)], one per confirmed root cause."""
     if target_name not in TARGETS:
         raise core.HarnessError("unknown fuzz target %r" % (target_name,))
@@ -299,7 +319,7 @@ def campaign(target_name, one_input, seeds, runs, seed, workdir, dictionary=None
         for i, s in enumerate(seeds[:3]):
             with open(os.path.join(wd, "w%d" % i), "wb") as f:
                 f.write(s)
-        t = threading.Thread(target=_one_campaign, args=(target_name, mode, ss, runs, sd, root, dictionary, budget_s, unit_timeout_s, out, tuple(libfuzzer_args)))
+        t = threading.Thread(target=_one_campaign, args=(target_name, mode, ss, runs, sd, root, dictionary, budget_s, unit_timeout_s, out, tuple(libfuzzer_args), rounds))
         t.start()
         threads.append(t)
     for t in threads:
@@ -317,7 +337,10 @@ def campaign(target_name, one_input, seeds, runs, seed, workdir, dictionary=None
             with open(path, "rb") as f:
                 data = f.read()
             if not name.startswith("fail-"):
-                res["libfuzzer_artifacts"].append(name.split("-")[0])
+                # libFuzzer's own artifacts (timeout-, oom-, crash-: resource exhaustion or a dying interpreter, none of them
+                # a statement of the properties) are counted, never re-run inside the parent
+                res["libfuzzer_artifacts"].append("%s (%d bytes)" % (name.split("-")[0], len(data)))
+                continue
             try:
                 label, msg, bucket = evaluate(one_input, data)
             except Exception:
